@@ -140,6 +140,9 @@ func labelName(i int64) string {
 	if i%4 == 3 {
 		return fmt.Sprintf("l\u00e4bel\u2192%02d", i)
 	}
+	if i%4 == 1 {
+		return fmt.Sprintf("l%%d_100%%_%02d", i) // a name with format verbs in it
+	}
 	return fmt.Sprintf("lbl_%02d", i)
 }
 
